@@ -22,6 +22,27 @@ nni_panic(const char *fmt, ...)
 	__CPROVER_assume(0);
 }
 
+/* ---- libc: plain ISO C definitions (CBMC's library models of the string functions trip DFCC's own
+ * local-assignability checks, see modules/httphdr/env.h) ---- */
+size_t
+strlen(const char *s)
+{
+	size_t i = 0;
+	while (s[i] != 0) {
+		i++;
+	}
+	return (i);
+}
+char *
+strcpy(char *d, const char *s)
+{
+	size_t i = 0;
+	while ((d[i] = s[i]) != 0) {
+		i++;
+	}
+	return (d);
+}
+
 /* ---- lists ------------------------------------------------------------- */
 static void
 vp_aioq_pop(vp_aioq *q)
